@@ -6,7 +6,7 @@ from ..real.env import reset_globals
 
 MODULE = "NadaVerif.Props.C07"
 TRANSLATORS = None
-THEOREMS = [f"NadaVerif.C07.{n}" for n in ("nonliterals_oblivious", "array_iteration_raises", "table_covers", "literal_bool_ok")]
+THEOREMS = [f"NadaVerif.C07.{n}" for n in ("nonliterals_oblivious", "array_iteration_raises", "array_walks_raise", "table_covers", "literal_bool_ok")]
 
 OPS = {"__eq__": operator.eq, "__ne__": operator.ne, "__lt__": operator.lt, "__le__": operator.le,
        "__gt__": operator.gt, "__ge__": operator.ge}
@@ -98,6 +98,9 @@ def array_provenances():
             "sorted(key)": lambda: sorted(x, key=id), "in": lambda: probe in x, "sum": lambda: sum(x), "zip()": lambda: list(zip(x, [1])),
             "enumerate": lambda: list(enumerate(x)), "any": lambda: any(x), "min(key)": lambda: min(x, key=id),
             "if x": lambda: 1 if x else 2, "not x": lambda: not x,
+            "reversed(x)": lambda: list(reversed(x)), "x[i] for i in range(len(x))": lambda: [x[i] for i in range(len(x))],
+            "max(x)": lambda: max(x), "set(x)": lambda: set(x), "[*x]": lambda: [*x], "dict.fromkeys(x)": lambda: dict.fromkeys(x),
+            "map(f, x)": lambda: list(map(id, x)),
         }
         for cname, thunk in constructs.items():
             out.append((name, cname, kind(thunk)))
@@ -140,6 +143,8 @@ def real_routes(cls, provenance):
     out[("iter", "")] = all_raise([lambda: list(x), lambda: _for(x), lambda: [e for e in x], lambda: _unpack(x),
                                    lambda: tuple(x), lambda: (lambda *a: a)(*x)])
     out[("hash", "")] = all_raise([lambda: {x}, lambda: {x: 1}, lambda: x in {1: 2}, lambda: hash(x)])
+    out[("reversed", "")] = all_raise([lambda: list(reversed(x))])
+    out[("indexwalk", "")] = all_raise([lambda: [x[i] for i in range(len(x))]])
     for other in T3.OTHERS:
         try:
             y = T3.other(other, cls, party)
@@ -204,7 +209,46 @@ def mixed_results():
     return bad, n
 
 
+def aliasing_results():
+    """Members read back from an NTuple / Object after the caller changed the list / dict it was built from: the recorded
+    value is what was passed at construction, so a non-literal member stays non-literal (its truth test raises) whatever
+    the caller's container holds later."""
+    import nada_dsl as D
+    from nada_dsl.program_io import Input as RawInput
+    bad, n = [], 0
+    for lit in (D.Boolean(True), D.Boolean(False)):
+        for X in (D.SecretBoolean, D.PublicBoolean):
+            reset_globals()
+            party = D.Party("p")
+            flag, other = X(RawInput("flag", party)), D.SecretInteger(RawInput("x", party))
+            row = [flag, other]
+            try:
+                t = D.NTuple.new(row)
+                row[0] = lit
+                row.append(lit)
+                got = [("NTuple.new(row); row[0] = Boolean(..); t[0]", t[0]), ("… t[-2]", t[-2])]
+            except Exception:  # pylint: disable=broad-except
+                got = []
+            fields = {"flag": flag, "x": other}
+            try:
+                o = D.Object.new(fields)
+                fields["flag"] = lit
+                got.append(("Object.new(fields); fields['flag'] = Boolean(..); o.flag", o.flag))
+            except Exception:  # pylint: disable=broad-except
+                pass
+            for text, v in got:
+                n += 1
+                if kind(lambda v=v: bool(v)) != "raises" or kind(lambda v=v: 1 if v else 2) != "raises" or kind(lambda v=v: not v) != "raises":
+                    bad.append((f"{X.__name__} member, {text}", f"returned a {type(v).__name__} whose truth value Python can read: the program "
+                                                             "branches on a value the recorded container does not hold"))
+    reset_globals()
+    return bad, n
+
+
 def run(res, tier):
+    alias_bad, nalias = aliasing_results()
+    for text, why in alias_bad[:4]:
+        res.violation({"property": "C07", "kind": "aliased-member", "expr": text, "why": why}, f"{text}: {why}")
     mixed, nmixed = mixed_results()
     for text, why in mixed[:6]:
         res.violation({"property": "C07", "kind": "mixed-result", "expr": text, "why": why}, f"{text}: {why}")
@@ -276,6 +320,12 @@ def run(res, tier):
 
 
 def replay(obj):
+    if obj.get("kind") == "aliased-member":
+        bad = [b for b in aliasing_results()[0] if b[0] == obj["expr"]]
+        print(bad or "ok")
+        if bad:
+            print("VIOLATION property=C07 replay=(replayed)")
+        return 1 if bad else 0
     if obj.get("kind") == "mixed-result":
         bad = [b for b in mixed_results()[0] if b[0] == obj["expr"]]
         print(bad or "ok")
